@@ -68,7 +68,7 @@ func chunksJ(cs []*mdiff.Chunk) []any {
 
 func c13rec(lhs, rhs []int, n int) Ev {
 	ev := Ev{"op": "new", "lhs": ints(lhs), "rhs": ints(rhs), "n": n, "big": b2i(len(lhs)*len(rhs) > 40000), "cnew": []any{}, "cctx": []any{}, "cuni": []any{},
-		"enew": []any{}, "ectx": []any{}, "euni": []any{}}
+		"enew": []any{}, "ectx": []any{}, "euni": []any{}, "pipe": []any{}}
 	guard(ev, func() {
 		d := mdiff.New(linesOf(lhs), linesOf(rhs))
 		ev["cnew"], ev["enew"] = chunksJ(d.Chunks), editsJ(d.Edits)
@@ -76,6 +76,29 @@ func c13rec(lhs, rhs []int, n int) Ev {
 		ev["cctx"], ev["ectx"] = chunksJ(d.Chunks), editsJ(d.Edits)
 		d.Unify()
 		ev["cuni"], ev["euni"] = chunksJ(d.Chunks), editsJ(d.Edits)
+		// other call orders, each on a fresh Diff (the order is a function of the inputs, so a
+		// replay makes the same calls).  Unify is only applied to what New or ONE AddContext left
+		// behind (see DESIGN.md section 6: AddContext, AddContext, Unify is outside the property).
+		m := 1 + (len(lhs)+2*len(rhs)+n)%3
+		orders := [][][2]int{ // {0,n} = AddContext(n), {1,0} = Unify
+			{{0, n}, {1, 0}, {0, m}},
+			{{0, n}, {1, 0}, {0, m}, {1, 0}},
+			{{0, n}, {0, m}},
+			{{1, 0}, {0, n}, {1, 0}},
+			{{0, m}, {1, 0}, {1, 0}, {0, n}, {1, 0}},
+		}
+		order := orders[(len(lhs)+len(rhs)+n)%len(orders)]
+		d2 := mdiff.New(linesOf(lhs), linesOf(rhs))
+		pipe := []any{}
+		for _, st := range order {
+			if st[0] == 0 {
+				d2.AddContext(st[1])
+			} else {
+				d2.Unify()
+			}
+			pipe = append(pipe, map[string]any{"k": st[0], "n": st[1], "cs": chunksJ(d2.Chunks), "e": editsJ(d2.Edits)})
+		}
+		ev["pipe"] = pipe
 	})
 	return ev
 }
